@@ -124,6 +124,7 @@ type vpIdPCall struct {
 	Endpoint string // discovery | keys | token_code | token_refresh | userinfo | logout
 	Params   url.Values
 	Outcome  string
+	User     string // (refresh grants answered with new tokens) whose session was refreshed
 }
 
 type vpAuthReq struct {
@@ -256,6 +257,19 @@ func (p *vpIdP) countCallsOutcome(ep, outcome string, _ interface{}) int {
 	n := 0
 	for _, c := range p.calls {
 		if c.Endpoint == ep && c.Outcome == outcome {
+			n++
+		}
+	}
+	return n
+}
+
+// refreshGrants: how many refresh grants the provider has answered with new tokens for sessions of this user
+func (p *vpIdP) refreshGrants(user string) int {
+	p.mu.Lock()
+	defer p.mu.Unlock()
+	n := 0
+	for _, c := range p.calls {
+		if c.Endpoint == "token_refresh" && c.Outcome == "ok" && c.User == user {
 			n++
 		}
 	}
@@ -483,6 +497,7 @@ func (p *vpIdP) hToken(rw http.ResponseWriter, r *http.Request) {
 			return
 		}
 		p.logCall(kind, form, "ok")
+		p.calls[len(p.calls)-1].User = lin.User
 		if p.onRefresh != nil {
 			p.onRefresh(true, rt)
 		}
